@@ -82,7 +82,8 @@ type MidCrash struct {
 }
 
 type World struct {
-	preEndHolders *oracletypes.Holders // holder list in force while the block's events are applied
+	preEndHolders *oracletypes.Holders    // holder list in force while the block's events are applied
+	preEndTokens  []*mhub2types.TokenInfo // token list just before EndBlock (governance changes it in EndBlock)
 	MidCrash      *MidCrash
 	createdAt     map[string]uint64 // chain/id -> creation time of a transfer as recorded when it was first observed
 	// Halted: the history left the domain of the properties (Tendermint itself stops the chain); the run ends without a verdict on later steps
